@@ -1,9 +1,37 @@
-"""Provider of valid lis files (TEMPORARY: example files only, until the generator lands)."""
-from . import example_files
+"""Providers of valid LIS files (plain and TIF-marked) from the independent generator tdv.gen.lis, plus example files."""
+from . import example_files, lis as glis
+from .providers import Valid
+
+
+def _make(rng, tif, convertible=False, scale=1):
+    if rng.random() < 0.08 and not scale > 1:
+        v = example_files.example(rng, 'lis')
+        if tif is None:
+            return v
+    for _ in range(50):
+        lay = glis.random_layout(rng, allow_be=False)
+        lay = glis.Layout(lay.pr_len, lay.rec_num, lay.file_num, lay.checksum, tif)
+        data, fm = glis.random_file(rng, allow_be=False, two_files_p=0.2 if scale == 1 else 0.9, layout=lay)
+        # the property excludes TIF-marked files whose first physical record is exactly 276 bytes (they share the BIT signature)
+        if tif and fm.prs and fm.prs[0]['end'] - fm.prs[0]['start'] - 12 == 276:
+            continue
+        if convertible and not any(lp.total > 0 for lp in fm.logpasses):
+            continue
+        break
+    bounds = sorted({r['start'] for r in fm.records} | {r['end'] for r in fm.records})
+    expect = {None: 'LIS', 'le': 'LISt', 'be': 'LIStr'}[fm.layout.tif]
+    v = Valid(data, expect, dict(fm.layout.describe(), records=len(fm.records), logpasses=[lp.total for lp in fm.logpasses]),
+              nontrivial=fm.layout.pr_len < 4000 or tif is not None,
+              classes=['tif' if tif else 'plain', 'small-pr' if fm.layout.pr_len < 400 else 'large-pr'],
+              boundaries=bounds, regen=lambda rng2: _make(rng2, tif, convertible, scale=10))
+    v.expect_las = None
+    v.model = fm
+    return v
 
 
 def lis(rng, convertible=False):
-    return example_files.example(rng, 'lis')
+    return _make(rng, None, convertible)
 
 
-lis_tif = lis
+def lis_tif(rng, convertible=False):
+    return _make(rng, 'le', convertible)
